@@ -234,4 +234,460 @@ theorem runLevel (op : β → β → β) (s : Nat) (is : List Nat) (pv : List β
       · subst hji; simp
       · simp [hji]
 
+/-! ### segments of the totals -/
+
+/-- fold of `t[a:b]` -/
+def seg (op : β → β → β) (t : List β) (a b : Nat) : Option β := ofold op ((t.drop a).take (b - a))
+
+theorem seg_append {op : β → β → β} (hop : Assoc op) (t : List β) {a b c : Nat} (hab : a ≤ b) (hbc : b ≤ c) :
+    oop op (seg op t a b) (seg op t b c) = seg op t a c := by
+  unfold seg
+  rw [← ofold_append hop]
+  congr 1
+  have h1 : c - a = (b - a) + (c - b) := by omega
+  have h2 : a + (b - a) = b := by omega
+  rw [h1, List.take_add, List.drop_drop, h2]
+
+theorem seg_zero (op : β → β → β) (t : List β) (k : Nat) : seg op t 0 k = ofold op (t.take k) := by
+  simp [seg]
+
+theorem seg_single (op : β → β → β) (t : List β) (j : Nat) (hj : j < t.length) :
+    seg op t j (j + 1) = t[j]? := by
+  unfold seg
+  have : j + 1 - j = 1 := by omega
+  rw [this, List.drop_eq_getElem_cons hj, List.getElem?_eq_getElem hj]
+  rfl
+
+/-! ### cover lengths -/
+
+/-- length of the segment ending at position `k` held by `prefix_vals[k-1]` after the
+up-sweep levels `< l` (largest `2^j ∣ k` with `j ≤ l`). -/
+def lenUp : Nat → Nat → Nat
+  | 0, _ => 1
+  | l + 1, k => if 2 ^ (l + 1) ∣ k then 2 ^ (l + 1) else lenUp l k
+
+theorem lenUp_of_dvd (l k : Nat) (h : 2 ^ l ∣ k) : lenUp l k = 2 ^ l := by
+  cases l with
+  | zero => rfl
+  | succ l => simp [lenUp, h]
+
+theorem lenUp_exact {j L k : Nat} (hj : j ≤ L) (h1 : 2 ^ j ∣ k) (h2 : ¬ 2 ^ (j + 1) ∣ k) :
+    lenUp L k = 2 ^ j := by
+  induction L with
+  | zero => have : j = 0 := by omega
+            subst this; rfl
+  | succ L ih =>
+    by_cases hjl : j = L + 1
+    · subst hjl; simp [lenUp, h1]
+    · have : ¬ 2 ^ (L + 1) ∣ k := fun h => h2 (Nat.dvd_trans (Nat.pow_dvd_pow 2 (by omega)) h)
+      simp only [lenUp, this, if_false]
+      exact ih (by omega)
+
+theorem lenUp_pow {e L : Nat} (he : e ≤ L) : lenUp L (2 ^ e) = 2 ^ e := by
+  apply lenUp_exact he (Nat.dvd_refl _)
+  intro h
+  have := Nat.le_of_dvd (Nat.pow_pos (by omega)) h
+  have h3 : 2 ^ e < 2 ^ (e + 1) := (Nat.pow_lt_pow_iff_right (by omega)).mpr (by omega)
+  omega
+
+def Cover (op : β → β → β) (t pv : List β) (len : Nat → Nat) : Prop :=
+  pv.length = t.length ∧ ∀ j, j < t.length → pv[j]? = seg op t (j + 1 - len (j + 1)) (j + 1)
+
+theorem cover_init (op : β → β → β) (t : List β) : Cover op t t (lenUp 0) := by
+  refine ⟨rfl, fun j hj => ?_⟩
+  simp only [lenUp]
+  have : j + 1 - 1 = j := by omega
+  rw [this, seg_single op t j hj]
+
+theorem mem_upLevel {d m i : Nat} (hd : 0 < d) : i ∈ rangeStep (d - 1) m d ↔ i < m ∧ d ∣ i + 1 := by
+  rw [mem_rangeStep hd]
+  constructor
+  · rintro ⟨k, hk, hlt⟩
+    refine ⟨hlt, ⟨k + 1, ?_⟩⟩
+    rw [Nat.mul_succ, Nat.mul_comm d k]; omega
+  · rintro ⟨hlt, ⟨q, hq⟩⟩
+    cases q with
+    | zero => simp at hq
+    | succ q =>
+      refine ⟨q, ?_, hlt⟩
+      rw [Nat.mul_succ, Nat.mul_comm d q] at hq; omega
+
+theorem two_pow_succ (l : Nat) : 2 ^ (l + 1) = 2 * 2 ^ l := by rw [Nat.pow_succ, Nat.mul_comm]
+
+theorem up_level {op : β → β → β} (hop : Assoc op) (t pv : List β) (l : Nat)
+    (h : Cover op t pv (lenUp l)) :
+    Cover op t (runSteps op pv (levelSteps (2 ^ (l + 1) - 1) (2 ^ l) (2 ^ (l + 1)) t.length))
+      (lenUp (l + 1)) := by
+  have hs : 0 < 2 ^ l := Nat.pow_pos (by omega)
+  have hd2 : 2 ^ (l + 1) = 2 * 2 ^ l := two_pow_succ l
+  have hd : 0 < 2 ^ (l + 1) := by omega
+  have hsd : 2 ^ l ∣ 2 ^ (l + 1) := ⟨2, by omega⟩
+  refine ⟨by rw [runSteps_length]; exact h.1, fun j hj => ?_⟩
+  unfold levelSteps
+  rw [runLevel op (2 ^ l) _ pv (nodup_rangeStep hd)
+      (fun i hi => by rw [h.1]; exact ((mem_upLevel hd).mp hi).1)
+      (fun i hi hi' => by
+        have h1 := ((mem_upLevel hd).mp hi).2
+        have h2 := ((mem_upLevel hd).mp hi').2
+        have h3 := Nat.le_of_dvd (by omega) h1
+        have h4 : 2 ^ (l + 1) ∣ (i + 1) - (i - 2 ^ l + 1) := Nat.dvd_sub h1 h2
+        have h5 : (i + 1) - (i - 2 ^ l + 1) = 2 ^ l := by omega
+        rw [h5] at h4
+        have := Nat.le_of_dvd hs h4
+        omega)]
+  by_cases hmem : j ∈ rangeStep (2 ^ (l + 1) - 1) t.length (2 ^ (l + 1))
+  · have hdv := ((mem_upLevel hd).mp hmem).2
+    have hge := Nat.le_of_dvd (by omega) hdv
+    have hsj : 2 ^ l ∣ j + 1 := Nat.dvd_trans hsd hdv
+    have hsj' : 2 ^ l ∣ j - 2 ^ l + 1 := by
+      have : j - 2 ^ l + 1 = (j + 1) - 2 ^ l := by omega
+      rw [this]; exact Nat.dvd_sub hsj (Nat.dvd_refl _)
+    rw [if_pos hmem, h.2 (j - 2 ^ l) (by omega), h.2 j hj, lenUp_of_dvd l _ hsj, lenUp_of_dvd l _ hsj',
+      lenUp_of_dvd (l + 1) _ hdv]
+    have e1 : j - 2 ^ l + 1 = j + 1 - 2 ^ l := by omega
+    have e2 : j + 1 - 2 ^ l - 2 ^ l = j + 1 - 2 ^ (l + 1) := by omega
+    rw [e1, seg_append hop t (by omega) (by omega), e2]
+  · have hdv : ¬ 2 ^ (l + 1) ∣ j + 1 := fun hh => hmem ((mem_upLevel hd).mpr ⟨hj, hh⟩)
+    rw [if_neg hmem, h.2 j hj]
+    simp only [lenUp, hdv, if_false]
+
+theorem runSteps_append (op : β → β → β) (pv : List β) (s1 s2 : List Step) :
+    runSteps op pv (s1 ++ s2) = runSteps op (runSteps op pv s1) s2 := by
+  simp [runSteps, List.foldl_append]
+
+theorem up_all {op : β → β → β} (hop : Assoc op) (t : List β) (fuel : Nat) :
+    ∀ (l : Nat) (pv : List β), t.length ≤ fuel + l → Cover op t pv (lenUp l) →
+      ∃ L, t.length < 2 ^ (L + 1) ∧
+        Cover op t (runSteps op pv (upSteps fuel (2 ^ l) (2 ^ (l + 1)) t.length)) (lenUp L) := by
+  induction fuel with
+  | zero =>
+    intro l pv hl h
+    refine ⟨l, ?_, by simpa [upSteps, runSteps] using h⟩
+    have h1 : l < 2 ^ l := Nat.lt_pow_self (by omega)
+    have h2 := two_pow_succ l
+    omega
+  | succ fuel ih =>
+    intro l pv hl h
+    by_cases hle : 2 ^ (l + 1) ≤ t.length
+    · simp only [upSteps, hle, if_true, runSteps_append]
+      have := ih (l + 1) _ (by omega) (up_level hop t pv l h)
+      rw [Nat.pow_succ 2 (l + 1)] at this
+      exact this
+    · refine ⟨l, by omega, ?_⟩
+      simpa [upSteps, hle, runSteps] using h
+
+
+/-! ### down-sweep -/
+
+/-- cover length before the down-sweep level with `stride2 = d`: positions divisible by `d`
+already hold the full prefix. -/
+def dlen (d L k : Nat) : Nat := if d ∣ k then k else lenUp L k
+
+theorem mem_downLevel {s m i : Nat} (hs : 0 < s) :
+    i ∈ rangeStep (2 * s + s - 1) m (2 * s) ↔ i < m ∧ ∃ c, i + 1 = s * (2 * c + 3) := by
+  rw [mem_rangeStep (by omega)]
+  constructor
+  · rintro ⟨k, hk, hlt⟩
+    refine ⟨hlt, k, ?_⟩
+    have : s * (2 * k + 3) = k * (2 * s) + 3 * s := by
+      rw [Nat.mul_add, Nat.mul_comm s 3, Nat.mul_comm k (2 * s), Nat.mul_comm s (2 * k), Nat.mul_assoc, Nat.mul_assoc,
+        Nat.mul_comm k s]
+    omega
+  · rintro ⟨hlt, c, hc⟩
+    refine ⟨c, ?_, hlt⟩
+    have : s * (2 * c + 3) = c * (2 * s) + 3 * s := by
+      rw [Nat.mul_add, Nat.mul_comm s 3, Nat.mul_comm c (2 * s), Nat.mul_comm s (2 * c), Nat.mul_assoc, Nat.mul_assoc,
+        Nat.mul_comm c s]
+    omega
+
+theorem down_level {op : β → β → β} (hop : Assoc op) (t pv : List β) (L j : Nat)
+    (hL : t.length < 2 ^ (L + 1))
+    (h : Cover op t pv (dlen (2 ^ (j + 1)) L)) :
+    Cover op t (runSteps op pv (levelSteps (2 ^ (j + 1) + 2 ^ j - 1) (2 ^ j) (2 ^ (j + 1)) t.length))
+      (dlen (2 ^ j) L) := by
+  have hs : 0 < 2 ^ j := Nat.pow_pos (by omega)
+  have hd2 : 2 ^ (j + 1) = 2 * 2 ^ j := two_pow_succ j
+  generalize hsdef : 2 ^ j = s at *
+  rw [hd2] at h ⊢
+  -- facts about positions `k = s * (2c+3)`
+  have key : ∀ k c, k = s * (2 * c + 3) → k ≤ t.length →
+      (2 * s ∣ k - s) ∧ ¬ (2 * s ∣ k) ∧ s ∣ k ∧ 3 * s ≤ k ∧ lenUp L k = s := by
+    intro k c hk hkm
+    have e1 : s * (2 * c + 3) = 2 * s * (c + 1) + s := by
+      rw [Nat.mul_add, Nat.mul_add, Nat.mul_one, Nat.mul_comm s (2 * c), Nat.mul_comm s 3, Nat.mul_assoc,
+        Nat.mul_assoc, Nat.mul_comm c s]
+      omega
+    have hdk : 2 * s ∣ k - s := ⟨c + 1, by omega⟩
+    have hnd : ¬ (2 * s ∣ k) := by
+      intro hh
+      have h4 : 2 * s ∣ k - (k - s) := Nat.dvd_sub hh hdk
+      have h5 : k - (k - s) = s := by
+        have : s ≤ k := by rw [hk, e1]; omega
+        omega
+      rw [h5] at h4
+      have := Nat.le_of_dvd hs h4
+      omega
+    have hsk : s ∣ k := ⟨2 * c + 3, hk⟩
+    have h3 : 3 * s ≤ k := by
+      rw [hk, e1]
+      have : 2 * s * 1 ≤ 2 * s * (c + 1) := Nat.mul_le_mul_left _ (by omega)
+      omega
+    refine ⟨hdk, hnd, hsk, h3, ?_⟩
+    have hjL : j ≤ L := by
+      have : 2 ^ j < 2 ^ (L + 1) := by rw [hsdef]; omega
+      have := (Nat.pow_lt_pow_iff_right (by omega)).mp this
+      omega
+    have := lenUp_exact (k := k) hjL (by rw [hsdef]; exact hsk) (by rw [hd2]; exact hnd)
+    rw [this, hsdef]
+  refine ⟨by rw [runSteps_length]; exact h.1, fun i hi => ?_⟩
+  unfold levelSteps
+  rw [runLevel op s _ pv (nodup_rangeStep (by omega))
+      (fun i hi => by rw [h.1]; exact ((mem_downLevel hs).mp hi).1)
+      (fun i hi hi' => by
+        obtain ⟨h1, c, hc⟩ := (mem_downLevel hs).mp hi
+        obtain ⟨h1', c', hc'⟩ := (mem_downLevel hs).mp hi'
+        have k1 := key (i + 1) c hc (by omega)
+        have k2 := key (i - s + 1) c' hc' (by omega)
+        have : i - s + 1 = i + 1 - s := by omega
+        rw [this] at k2
+        exact k2.2.1 k1.1)]
+  by_cases hmem : i ∈ rangeStep (2 * s + s - 1) t.length (2 * s)
+  · obtain ⟨_, c, hc⟩ := (mem_downLevel hs).mp hmem
+    obtain ⟨k1, k2, k3, k4, k5⟩ := key (i + 1) c hc (by omega)
+    have e1 : i - s + 1 = i + 1 - s := by omega
+    rw [if_pos hmem, h.2 (i - s) (by omega), h.2 i hi, e1]
+    simp only [dlen, k1, k2, k3, if_true, if_false, k5, Nat.sub_self]
+    exact seg_append hop t (by omega) (by omega)
+  · rw [if_neg hmem, h.2 i hi]
+    congr 2
+    unfold dlen
+    by_cases hd : 2 * s ∣ i + 1
+    · have : s ∣ i + 1 := Nat.dvd_trans ⟨2, Nat.mul_comm 2 s⟩ hd
+      simp [hd, this]
+    · by_cases hsk : s ∣ i + 1
+      · simp only [hd, hsk, if_true, if_false]
+        obtain ⟨q, hq⟩ := hsk
+        rcases Nat.mod_two_eq_zero_or_one q with hq2 | hq2
+        · exfalso; apply hd
+          refine ⟨q / 2, ?_⟩
+          have : q = 2 * (q / 2) := by omega
+          rw [hq, Nat.mul_assoc, Nat.mul_left_comm, ← this]
+        · have hq3 : q = 2 * (q / 2) + 1 := by omega
+          rcases Nat.eq_zero_or_pos (q / 2) with hz | hp
+          · have : q = 1 := by omega
+            rw [this, Nat.mul_one] at hq
+            have hjL : j ≤ L := by
+              have : 2 ^ j < 2 ^ (L + 1) := by rw [hsdef]; omega
+              have := (Nat.pow_lt_pow_iff_right (by omega)).mp this
+              omega
+            rw [hq, ← hsdef, lenUp_pow hjL]
+          · exfalso; apply hmem
+            refine (mem_downLevel hs).mpr ⟨hi, q / 2 - 1, ?_⟩
+            have : 2 * (q / 2 - 1) + 3 = q := by omega
+            rw [this, hq]
+      · simp [hd, hsk]
+
+
+theorem down_all {op : β → β → β} (hop : Assoc op) (t : List β) (L : Nat) (hL : t.length < 2 ^ (L + 1))
+    (j : Nat) : ∀ (fuel : Nat) (pv : List β), j + 1 ≤ fuel → Cover op t pv (dlen (2 ^ (j + 1)) L) →
+      Cover op t (runSteps op pv (downSteps fuel (2 ^ j) (2 ^ (j + 1)) t.length)) (dlen 1 L) := by
+  induction j with
+  | zero =>
+    intro fuel pv hf h
+    obtain ⟨f, rfl⟩ : ∃ f, fuel = f + 1 := ⟨fuel - 1, by omega⟩
+    have h0 : downSteps f (2 ^ 0 / 2) (2 ^ 0) t.length = [] := by
+      cases f <;> simp [downSteps]
+    simp only [downSteps, h0, List.append_nil]
+    have := down_level hop t pv L 0 hL h
+    simpa using this
+  | succ j ih =>
+    intro fuel pv hf h
+    obtain ⟨f, rfl⟩ : ∃ f, fuel = f + 1 := ⟨fuel - 1, by omega⟩
+    have hpos : 2 ^ (j + 1) > 0 := Nat.pow_pos (by omega)
+    have hhalf : 2 ^ (j + 1) / 2 = 2 ^ j := by rw [two_pow_succ]; omega
+    simp only [downSteps, hpos, if_true, runSteps_append, hhalf]
+    exact ih f _ (by omega) (down_level hop t pv L (j + 1) hL h)
+
+/-! ### `clog2`, `downStart` -/
+
+theorem clog2From_spec (fuel : Nat) : ∀ e x, x ≤ fuel + e → x ≤ 2 ^ clog2From fuel e x := by
+  induction fuel with
+  | zero =>
+    intro e x h
+    have : e < 2 ^ e := Nat.lt_pow_self (by omega)
+    simp only [clog2From]; omega
+  | succ fuel ih =>
+    intro e x h
+    simp only [clog2From]
+    split
+    · assumption
+    · exact ih (e + 1) x (by omega)
+
+theorem clog2_spec (x : Nat) : x ≤ 2 ^ clog2 x := clog2From_spec x 0 x (by omega)
+
+theorem downStart_spec (m : Nat) : ∃ J, downStart m = 2 ^ (J + 1) ∧ m / 2 ≤ downStart m := by
+  unfold downStart
+  have h := clog2_spec (m / 2)
+  cases hc : clog2 (m / 2) with
+  | zero => rw [hc] at h; exact ⟨0, by simp, by simp at h; omega⟩
+  | succ c =>
+    rw [hc] at h
+    have : 2 ≤ 2 ^ (c + 1) := by
+      have := two_pow_succ c
+      have : 0 < 2 ^ c := Nat.pow_pos (by omega)
+      omega
+    exact ⟨c, by omega, by omega⟩
+
+/-- after the up-sweep, every position divisible by the down-sweep's first `stride2` is a
+power of two, so it already holds the full prefix. -/
+theorem cover_down_init {op : β → β → β} (t pv : List β) (L J : Nat) (hL : t.length < 2 ^ (L + 1))
+    (hJ : t.length / 2 ≤ 2 ^ (J + 1)) (h : Cover op t pv (lenUp L)) :
+    Cover op t pv (dlen (2 ^ (J + 1)) L) := by
+  refine ⟨h.1, fun i hi => ?_⟩
+  rw [h.2 i hi]
+  congr 2
+  unfold dlen
+  by_cases hd : 2 ^ (J + 1) ∣ i + 1
+  · rw [if_pos hd]
+    obtain ⟨q, hq⟩ := hd
+    have hS : 2 ≤ 2 ^ (J + 1) := by
+      have := two_pow_succ J
+      have : 0 < 2 ^ J := Nat.pow_pos (by omega)
+      omega
+    have hq3 : q < 3 := by
+      apply Classical.byContradiction
+      intro hn
+      have : 2 ^ (J + 1) * 3 ≤ 2 ^ (J + 1) * q := Nat.mul_le_mul_left _ (by omega)
+      omega
+    have hle : ∀ e, 2 ^ e ≤ t.length → e ≤ L := by
+      intro e he
+      have : 2 ^ e < 2 ^ (L + 1) := by omega
+      have := (Nat.pow_lt_pow_iff_right (by omega)).mp this
+      omega
+    have : q = 0 ∨ q = 1 ∨ q = 2 := by omega
+    rcases this with rfl | rfl | rfl
+    · simp at hq
+    · rw [Nat.mul_one] at hq
+      rw [hq]; exact lenUp_pow (hle _ (by omega))
+    · have : i + 1 = 2 ^ (J + 1 + 1) := by rw [Nat.pow_succ 2 (J + 1)]; exact hq
+      rw [this]; exact lenUp_pow (hle _ (by omega))
+  · rw [if_neg hd]
+
+/-! ### the Blelloch prefix values -/
+
+theorem blelloch_cover {op : β → β → β} (hop : Assoc op) (t : List β) :
+    Cover op t (runSteps op t (blellochSteps t.length)) (fun k => k) := by
+  unfold blellochSteps
+  by_cases hm : t.length ≥ 2
+  · simp only [hm, if_true, runSteps_append]
+    obtain ⟨L, hL, hup⟩ := up_all hop t t.length 0 t (by omega) (cover_init op t)
+    obtain ⟨J, hJ, hJ2⟩ := downStart_spec t.length
+    have hhalf : 2 ^ (J + 1) / 2 = 2 ^ J := by rw [two_pow_succ]; omega
+    have hfuel : J + 1 ≤ 2 ^ (J + 1) := by
+      have : J + 1 < 2 ^ (J + 1) := Nat.lt_pow_self (by omega)
+      omega
+    rw [hJ, hhalf]
+    have hup' : Cover op t (runSteps op t (upSteps t.length 1 2 t.length)) (lenUp L) := by simpa using hup
+    have := down_all hop t L hL J (2 ^ (J + 1)) _ hfuel (cover_down_init t _ L J hL (by omega) hup')
+    refine ⟨this.1, fun i hi => ?_⟩
+    rw [this.2 i hi]
+    simp [dlen]
+  · simp only [hm, if_false, runSteps, List.foldl_nil]
+    have := cover_init op t
+    refine ⟨rfl, fun i hi => ?_⟩
+    rw [this.2 i hi]
+    have : i = 0 := by omega
+    subst this
+    simp [lenUp]
+
+/-- `prefix_vals[i]` ends up as the fold of the totals of blocks `0..i`. -/
+theorem blellochPrefix_spec {op : β → β → β} (hop : Assoc op) (totals : List β) :
+    (blellochPrefix op totals).length = totals.length - 1 ∧
+    ∀ i, i + 1 < totals.length → (blellochPrefix op totals)[i]? = ofold op (totals.take (i + 1)) := by
+  have h := blelloch_cover hop totals.dropLast
+  unfold blellochPrefix
+  refine ⟨by rw [h.1, List.length_dropLast], fun i hi => ?_⟩
+  rw [h.2 i (by rw [List.length_dropLast]; omega)]
+  simp only [Nat.sub_self, seg_zero, List.dropLast_eq_take, List.take_take]
+  congr 2
+  omega
+
+theorem blellochOffsets_correct {op : β → β → β} (hop : Assoc op) (totals : List β) :
+    blellochOffsets op totals = (List.range totals.length).map (fun i => ofold op (totals.take i)) := by
+  cases totals with
+  | nil => rfl
+  | cons x xs =>
+    obtain ⟨hlen, hval⟩ := blellochPrefix_spec hop (x :: xs)
+    apply List.ext_getElem?
+    intro i
+    simp only [blellochOffsets]
+    cases i with
+    | zero => simp [ofold]
+    | succ i =>
+      simp only [List.getElem?_cons_succ, List.getElem?_map]
+      by_cases hi : i + 1 < (x :: xs).length
+      · rw [hval i hi, List.getElem?_range hi]
+        simp [ofold]
+      · have h1 : (blellochPrefix op (x :: xs))[i]? = none := by
+          apply List.getElem?_eq_none; rw [hlen]; omega
+        have h2 : (List.range (x :: xs).length)[i + 1]? = none := by
+          apply List.getElem?_eq_none; simp at hi ⊢; omega
+        rw [h1, h2]; rfl
+
+
+/-! ### assembled Blelloch result -/
+
+theorem combineBlock_eq {op : β → β → β} (hop : Assoc op) (o : Option β) (b : List β) :
+    combineBlock op o b = scanO op o b := by
+  cases o with
+  | none => rfl
+  | some p => simp [combineBlock, scanO, scanFrom_eq_map hop]
+
+theorem specBlocks_getElem? {op : β → β → β} (hop : Assoc op) (acc : Option β) (bs : List (List β)) (i : Nat) :
+    (specBlocks op acc bs)[i]? = bs[i]?.map (scanO op (oop op acc (ofold op (bs.take i).flatten))) := by
+  induction bs generalizing acc i with
+  | nil => simp [specBlocks]
+  | cons b bs ih =>
+    cases i with
+    | zero => simp [specBlocks, ofold, oop_none_right]
+    | succ i => simp [specBlocks, ih, ofold_append hop, oop_assoc hop]
+
+theorem ofold_totals {op : β → β → β} (hop : Assoc op) (pre : List β → β)
+    (hpre : ∀ x xs, pre (x :: xs) = xs.foldl op x) (bs : List (List β)) (hne : ∀ b ∈ bs, b ≠ []) :
+    ofold op (bs.map pre) = ofold op bs.flatten := by
+  induction bs with
+  | nil => rfl
+  | cons b bs ih =>
+    have hb : b ≠ [] := hne b (by simp)
+    rw [List.map_cons, ofold_cons hop, List.flatten_cons, ofold_append hop, ih (fun b' h => hne b' (by simp [h]))]
+    cases b with
+    | nil => exact absurd rfl hb
+    | cons x xs => simp [ofold, hpre]
+
+theorem blellochBlocks_eq_spec {op : β → β → β} (hop : Assoc op) (pre : List β → β)
+    (hpre : ∀ x xs, pre (x :: xs) = xs.foldl op x) (bs : List (List β)) (hne : ∀ b ∈ bs, b ≠ []) :
+    blellochBlocks op pre bs = specBlocks op none bs := by
+  unfold blellochBlocks
+  rw [blellochOffsets_correct hop]
+  apply List.ext_getElem?
+  intro i
+  rw [specBlocks_getElem? hop, List.getElem?_zipWith, List.getElem?_map, List.length_map]
+  by_cases hi : i < bs.length
+  · rw [List.getElem?_range hi, List.getElem?_eq_getElem hi]
+    simp only [Option.map_some, oop_none_left, combineBlock_eq hop]
+    rw [← List.map_take, ofold_totals hop pre hpre _ (fun b hb => hne b (List.mem_of_mem_take hb))]
+  · have : bs[i]? = none := List.getElem?_eq_none (by omega)
+    rw [this]
+    cases (List.range bs.length)[i]? <;> rfl
+
+theorem blellochScan_correct {op : β → β → β} (hop : Assoc op) (pre : List β → β)
+    (hpre : ∀ x xs, pre (x :: xs) = xs.foldl op x) (bs : List (List β)) (hne : ∀ b ∈ bs, b ≠ []) :
+    (blellochBlocks op pre bs).flatten = scanl1 op bs.flatten := by
+  rw [blellochBlocks_eq_spec hop pre hpre bs hne, specBlocks_flatten hop]; rfl
+
+theorem blellochBlocks_lengths {op : β → β → β} (hop : Assoc op) (pre : List β → β)
+    (hpre : ∀ x xs, pre (x :: xs) = xs.foldl op x) (bs : List (List β)) (hne : ∀ b ∈ bs, b ≠ []) :
+    (blellochBlocks op pre bs).map List.length = bs.map List.length := by
+  rw [blellochBlocks_eq_spec hop pre hpre bs hne, specBlocks_lengths]
+
 end Dask.Lemmas.Scan
